@@ -477,7 +477,9 @@ func (w *world) merge(a, b int) {
 					(x.AssemblyID() != "" && y.AssemblyID() != "" && x.AssemblyID() != y.AssemblyID()) ||
 					(x.Species() != "" && y.Species() != "" && x.Species() != y.Species()) ||
 					(x.URI() != "" && y.URI() != "" && x.URI() != y.URI()) ||
-					x.Get(sam.NewTag("XY")) != y.Get(sam.NewTag("XY")) {
+					x.Get(sam.NewTag("XY")) != y.Get(sam.NewTag("XY")) ||
+					x.Get(sam.NewTag("AH")) != y.Get(sam.NewTag("AH")) ||
+					x.Get(sam.NewTag("TP")) != y.Get(sam.NewTag("TP")) {
 					oc = true
 				}
 			}
